@@ -494,11 +494,14 @@ def check_C01(tier, seed):
     n, k = sizes(tier, (70, 4), (900, 5))
     progs = (F.fixed_mm(1) + F.random_mm(seed, n, 100, k=k)
              + F.random_general(seed + 1, n // 3, 5000, k=k, nsets=(1,), nrules=(2, 3, 4, 5), p_sugar=0.3,
-                                menu_sizes=(1,), p_fal=0.0, named=False, depth=3))
+                                menu_sizes=(1,), p_fal=0.0, named=False, depth=3)
+             # "with its right context, if any, satisfied": some definitions with contexts too
+             + F.random_general(seed + 2, n // 3, 8000, k=k, nsets=(1,), nrules=(2, 3, 4), p_sugar=0.2,
+                                menu_sizes=(1,), p_fal=0.0, p_ctx=0.45, depth=2))
     import random
     rnd = random.Random(seed)
     for p in progs:
-        if p.id >= 5000:
+        if 5000 <= p.id < 8000:
             # actions that return, continue (accumulating) or skip: fixed per rule
             for r in p.rules():
                 if r["kind"] == "inf":
